@@ -328,6 +328,35 @@ def check_value_universe(repo, rep, uni, facts):
                 f.key not in have and role in ('helper', 'nested'):
             funcs.append(f)
     extra = set()
+
+    def taken_apart_everywhere(fi):
+        """A helper (not a registered payload) whose result is, at every
+        call site, read field by field (h(...).x, h(...)[0], a, b = h(...)):
+        the record itself never becomes a value of the evaluation."""
+        if fi.key in have or fi.cls is not None:
+            return False
+        sites = 0
+        for f in repo.all_functions():
+            if f.module is not fi.module:
+                if not f.module.name.startswith('yaql'):
+                    continue
+            for c in model.calls_in(f.node, shallow=True):
+                d = repo.resolve(f.module, c.func, model.scope_locals(f))
+                if repo.lookup(d) is not fi if d else True:
+                    continue
+                sites += 1
+                par = getattr(c, '_parent', None)
+                if isinstance(par, ast.Attribute) and par.value is c:
+                    continue
+                if isinstance(par, ast.Subscript) and par.value is c and \
+                        isinstance(par.slice, ast.Constant):
+                    continue
+                if isinstance(par, ast.Assign) and par.value is c and \
+                        all(isinstance(t, ast.Tuple) for t in par.targets):
+                    continue
+                return False
+        return sites > 0
+
     for fi in funcs:
         gen = any(isinstance(x, (ast.Yield, ast.YieldFrom))
                   for x in model.walk_shallow(fi.node))
@@ -346,12 +375,16 @@ def check_value_universe(repo, rep, uni, facts):
                         isinstance(tgt[2], ast.Call) and repo.resolve(
                             tgt[1], tgt[2].func) in (
                             'collections.namedtuple', 'typing.NamedTuple'):
+                    if taken_apart_everywhere(fi):
+                        continue
                     kinds_seen.add('namedtuple')
                     extra.add('namedtuple')
                     continue
                 if isinstance(tgt, model.ClassInfo) and any(
                         repo.is_subclass(tgt, b) for b in (
                             'builtins.tuple', 'typing.NamedTuple')):
+                    if taken_apart_everywhere(fi):
+                        continue
                     kinds_seen.add('namedtuple')
                     extra.add('namedtuple')
                     continue
